@@ -1,4 +1,4 @@
-import GrinVerif.Lemmas.PoolBucket
+import GrinVerif.Lemmas.PoolHeight
 /-! C14 — the transaction pool always holds a jointly valid, fee-paying, mineable set.
 
 Model: `GrinVerif/Model/Pool.lean` (pool/src/pool.rs, pool/src/transaction_pool.rs).
@@ -9,7 +9,9 @@ no commitment ends up twice) and every transaction conserves value.  Histories: 
 (any new unspent set: next block or reorg), `reconcile_reorg_cache`, evictions, cache truncation.
 
 What is proved, and what is not (eviction, over-capacity admission, reorg to a lower height) is
-stated explicitly below, each with a kernel-checked witness.
+stated explicitly below, each with a kernel-checked witness.  A fourth defect found by this check
+(the mineable set failed to assemble when a commitment is re-created inside the pool) is repaired
+in the code; the model follows the repair and `mineable_set_total` states it.
 
 Sections: soundness of the aggregate check; `pool_inv` (histories without eviction); eviction
 (what it breaks); admission; inputs of pooled transactions across evictions at capacity
@@ -571,6 +573,145 @@ example : ∀ u ∈ cPool.txs, ∀ o ∈ cF.outs, o ∉ u.ins :=
   evicted_is_leaf_when_no_child_lowers_its_bucket_rate (c := cc) (p := cPool) (by decide) (by decide)
     (ordered_of_check _ (by decide)) (by decide)
 
+/-! ### witness: the newly admitted transaction is itself the victim, not its parent
+
+`max_pool_size = 2`; F1, F2 and P fill the pool to capacity + 1, so the admission of C — a child
+of P, the entry just before it — evicts.  C pays least of all.  Whether it lowers P's bucket rate
+(own bucket at the end) or joins P's bucket (last of the last bucket), the victim is C; P stays. -/
+def nc : Ctx where
+  cfg := { maxPool := 2, feeBase := 2 }
+  outs := [od 1 100000, od 2 100000, od 3 100000, od 21 92493, od 22 93743, od 23 94993, od 24 94736, od 25 93736]
+  head := { utxo := [(1, 0, false), (2, 0, false), (3, 0, false)], nrd := [], height := 5 }
+  ver := 3
+def nF1 : Tx := { ins := [1], outs := [21], kers := [pk 1 7507] }
+def nF2 : Tx := { ins := [2], outs := [22], kers := [pk 2 6257] }
+def nP : Tx := { ins := [3], outs := [23], kers := [pk 3 5007] }
+/-- fee rate 10: would lower P's bucket (5264 / 28 = 188 < 200) -/
+def nC : Tx := { ins := [23], outs := [24], kers := [pk 4 257] }
+/-- fee rate 50: joins P's bucket (6264 / 28 = 223 ≥ 200) -/
+def nC' : Tx := { ins := [23], outs := [25], kers := [pk 4 1257] }
+def nOps : List Op := [nF1, nF2, nP].map fun t => .submit .broadcast t false true
+
+theorem new_child_at_capacity_is_the_victim :
+    (run (nc, {}) nOps).2.txpool.txs = [nF1, nF2, nP] ∧
+    stepKinds nc .noLimit {} [nF1, nF2, nP, nC] = [.fresh, .fresh, .fresh, .own] ∧
+    stepKinds nc .noLimit {} [nF1, nF2, nP, nC'] = [.fresh, .fresh, .fresh, .merged] ∧
+    ((run (nc, {}) nOps).2.addToPool nc .broadcast nC false true).2 = none ∧
+    ((run (nc, {}) nOps).2.addToPool nc .broadcast nC false true).1.txpool.txs = [nF1, nF2, nP] ∧
+    ((run (nc, {}) nOps).2.addToPool nc .broadcast nC' false true).2 = none ∧
+    ((run (nc, {}) nOps).2.addToPool nc .broadcast nC' false true).1.txpool.txs = [nF1, nF2, nP] := by
+  decide
+
+/-! ## height-dependent admission and degenerate transactions
+
+`verify_tx_lock_height`, `verify_coinbase_maturity` and the NRD part of `validate_tx` compare with
+the height of the NEXT block on the BODY head (`c.head.height + 1`).  Headers the node has accepted
+ahead of their blocks do not occur in the model: no operation of a history changes `Ctx.head`
+except a connected block.  The thresholds are exact (`…_witness`: one below refused, at admitted). -/
+
+/-- a kernel locked beyond the next block: refused, pool unchanged, either path, any fill state -/
+theorem locked_beyond_next_block_refused {c : Ctx} {s : TxPool} (src : Src) (tx : Tx) (stem stemOk : Bool)
+    (hk : tx.kers.length ≤ 1) (hl : tx.lockHeight > c.head.height + 1) :
+    ∃ er, s.addToPool c src tx stem stemOk = (s, some er) := by
+  have h : ∀ st e, entryOf s src tx st = .ok e → e.tx.lockHeight > c.head.height + 1 := by
+    intro st e he
+    rw [entryOf_single hk st] at he
+    simp only [Except.ok.injEq] at he
+    subst he; exact hl
+  unfold TxPool.addToPool
+  split
+  · exact addCore_refuses_locked src tx false stemOk (h false)
+  · exact addCore_refuses_locked src tx stem stemOk (h stem)
+
+/-- spending (directly from the chain) a coinbase output that is not mature at the next block of
+the body head: refused, pool unchanged -/
+theorem immature_coinbase_refused {c : Ctx} {s : TxPool} (src : Src) (tx : Tx) (stem stemOk : Bool)
+    (hk : tx.kers.length ≤ 1) {i x h : Nat} (hi : i ∈ tx.ins) (hf : c.head.find i = some (x, h, true))
+    (hlt : c.head.height + 1 < h + c.cfg.maturity)
+    (htp : i ∉ allOuts s.txpool.txs) (hsp : i ∉ allOuts s.stempool.txs) :
+    ∃ er, s.addToPool c src tx stem stemOk = (s, some er) := by
+  have h' : ∀ st e, entryOf s src tx st = .ok e → ∃ i ∈ e.tx.ins, ∃ x h, c.head.find i = some (x, h, true) ∧
+      c.head.height + 1 < h + c.cfg.maturity ∧ i ∉ allOuts s.txpool.txs ∧ (st = true → i ∉ allOuts s.stempool.txs) := by
+    intro st e he
+    rw [entryOf_single hk st] at he
+    simp only [Except.ok.injEq] at he
+    subst he
+    exact ⟨i, hi, x, h, hf, hlt, htp, fun _ => hsp⟩
+  unfold TxPool.addToPool
+  split
+  · exact addCore_refuses_immature src tx false stemOk (h' false)
+  · exact addCore_refuses_immature src tx stem stemOk (h' stem)
+
+/-- an NRD kernel repeating an excess last seen fewer than its relative height blocks before the
+next block of the body head: refused, pool unchanged -/
+theorem nrd_too_recent_refused {c : Ctx} {s : TxPool} (src : Src) (tx : Tx) (stem stemOk : Bool)
+    (hk : tx.kers.length ≤ 1) (hn : nrdTooRecent c tx = true) :
+    ∃ er, s.addToPool c src tx stem stemOk = (s, some er) := by
+  have h : ∀ st e, entryOf s src tx st = .ok e → nrdTooRecent c e.tx = true := by
+    intro st e he
+    rw [entryOf_single hk st] at he
+    simp only [Except.ok.injEq] at he
+    subst he; exact hn
+  unfold TxPool.addToPool
+  split
+  · exact addCore_refuses_nrd src tx false stemOk (h false)
+  · exact addCore_refuses_nrd src tx stem stemOk (h stem)
+
+/-- **a transaction without kernels — the EMPTY transaction included — is refused**, the pool
+unchanged, on either path and in any fill state (over capacity the fee check is skipped, the
+standalone validation is not) -/
+theorem no_kernels_refused {c : Ctx} {s : TxPool} (src : Src) (tx : Tx) (stem stemOk : Bool)
+    (hk : tx.kers = []) : ∃ er, s.addToPool c src tx stem stemOk = (s, some er) := by
+  apply admission_invalid
+  intro st e he
+  rw [entryOf_single (by simp [hk]) st] at he
+  simp only [Except.ok.injEq] at he
+  subst he
+  exact validate_no_kernels hk
+
+theorem empty_transaction_refused {c : Ctx} {s : TxPool} (src : Src) (stem stemOk : Bool) :
+    ∃ er, s.addToPool c src emptyTx stem stemOk = (s, some er) :=
+  no_kernels_refused src emptyTx stem stemOk rfl
+
+/-- the thresholds are exact, on the body head: head at height 9, an NRD excess last seen at
+height 8, coinbases created at heights 7, 8 (maturity 3).  Lock height 10 admitted, 11 refused;
+coinbase of height 7 admitted (10 ≥ 7 + 3), of height 8 refused; NRD relative height 2 admitted
+(10 − 8 ≥ 2), 3 refused; the empty transaction and one without outputs: refused resp. admitted
+(everything to the fee is consensus-valid). -/
+def hc : Ctx where
+  cfg := { maxPool := 50, feeBase := 2 }
+  outs := [od 1 1000, od 2 1000, { id := 7, cb := true, v := 1000 }, { id := 8, cb := true, v := 1000 },
+           od 31 900, od 32 900, od 33 900, od 34 900, od 35 900, od 36 900]
+  head := { utxo := [(1, 0, false), (2, 0, false), (7, 7, true), (8, 8, true)], nrd := [("ex", 8)], height := 9 }
+  ver := 4
+def hLock (o out l : Nat) : Tx := { ins := [o], outs := [out], kers := [{ kid := l, ker := .hl 100 l }] }
+def hNrd (o out r : Nat) : Tx := { ins := [o], outs := [out], kers := [{ kid := 20 + r, ker := .nrd 100 r "ex" }] }
+def hSpend (o out : Nat) : Tx := { ins := [o], outs := [out], kers := [pk (40 + o) 100] }
+
+theorem height_thresholds_witness :
+    (({} : TxPool).addToPool hc .pushApi (hLock 1 31 10) false true).2 = none ∧
+    (({} : TxPool).addToPool hc .pushApi (hLock 1 31 11) false true).2 = some "ImmatureTransaction" ∧
+    (({} : TxPool).addToPool hc .pushApi (hLock 1 31 11) true true).2 = some "ImmatureTransaction" ∧
+    (({} : TxPool).addToPool hc .pushApi (hSpend 7 33) false true).2 = none ∧
+    (({} : TxPool).addToPool hc .pushApi (hSpend 8 34) false true).2 = some "ImmatureCoinbase" ∧
+    (({} : TxPool).addToPool hc .pushApi (hSpend 8 34) true true).2 = some "ImmatureCoinbase" ∧
+    (({} : TxPool).addToPool hc .pushApi (hNrd 2 35 2) false true).2 = none ∧
+    (({} : TxPool).addToPool hc .pushApi (hNrd 2 35 3) false true).2 = some "NRDKernelRelativeHeight" ∧
+    (({} : TxPool).addToPool hc .pushApi (hNrd 2 35 3) true true).2 = some "NRDKernelRelativeHeight" ∧
+    (({} : TxPool).addToPool hc .pushApi emptyTx false true).2 = some "InvalidTx:Committed" ∧
+    (({} : TxPool).addToPool hc .pushApi emptyTx true true).2 = some "InvalidTx:Committed" ∧
+    (({} : TxPool).addToPool hc .pushApi { ins := [1], outs := [], kers := [pk 9 1000] } false true).2 = none := by
+  decide
+
+/-- non-vacuity of the three refusal theorems on that state -/
+example : ∃ er, ({} : TxPool).addToPool hc .pushApi (hLock 1 31 11) true true = ({}, some er) :=
+  locked_beyond_next_block_refused .pushApi _ true true (by decide) (by decide)
+example : ∃ er, ({} : TxPool).addToPool hc .pushApi (hSpend 8 34) true true = ({}, some er) :=
+  immature_coinbase_refused (c := hc) .pushApi _ true true (by decide) (i := 8) (x := 8) (h := 8) (by decide) (by decide)
+    (by decide) (by decide) (by decide)
+example : ∃ er, ({} : TxPool).addToPool hc .pushApi (hNrd 2 35 3) false true = ({}, some er) :=
+  nrd_too_recent_refused .pushApi _ false true (by decide) (by decide)
+
 /-! ## weight limit and submission form -/
 
 /-- **overweight_never_admitted** — after ANY history no entry of the txpool, the stempool or the
@@ -754,6 +895,59 @@ example : mineVerdict (run (wc, {}) wOps).1 [wA, wB] = true := by decide
 /-- non-vacuity: in witness 1's state before the eviction the mineable set is [A, B] (C is
 skipped by the buckets) -/
 example : ((run (wc, {}) wOps).2.prepareMineable (run (wc, {}) wOps).1).toOption = some [wA, wB] := by decide
+
+/-- **mineable_set_total** — `prepare_mineable_transactions` never fails, in ANY pool state:
+`validate_raw_txs` skips a candidate that cannot be aggregated with those selected so far or whose
+aggregate does not validate on the head.  What it returns consists of txpool transactions, and —
+whenever the entries are standalone valid, i.e. after any history from the empty pool — it is
+jointly valid against the head and within the miner's weight limit (`mineable_ok`).
+(Before 611fc1746 an aggregation error of one candidate escaped and the whole call failed:
+C14-mineable-set-fails-on-recreated-commitment, found by this check, fixed.) -/
+theorem mineable_set_total (c : Ctx) (s : TxPool) :
+    ∃ txs, s.prepareMineable c = .ok txs ∧ (∀ t ∈ txs, t ∈ s.txpool.txs) ∧
+      (AllValid c s → JointlyValid c.outs (utxoIds c) txs) := by
+  obtain ⟨txs, h⟩ := validateRawTxs_total c (.asLimited c.cfg.mineW) none
+    (s.txpool.bucketTransactions c (.asLimited c.cfg.mineW)) []
+  have h' : s.prepareMineable c = .ok txs := by
+    unfold TxPool.prepareMineable Pool.prepareMineable; exact h
+  refine ⟨txs, h', ?_, fun hv => (mineable_ok hv h').2.1⟩
+  obtain ⟨_, hmem⟩ := validateRawTxs_spec c _ _ [] txs (Or.inl rfl) h
+  intro t ht
+  rcases hmem t ht with hh | hh
+  · simp at hh
+  · exact bucketTransactions_mem c _ _ t hh
+
+theorem mineable_set_total_after_any_history (c : Ctx) (ops : List Op) :
+    ∃ txs, (run (c, {}) ops).2.prepareMineable (run (c, {}) ops).1 = .ok txs ∧
+      (∀ t ∈ txs, t ∈ (run (c, {}) ops).2.txpool.txs) ∧
+      JointlyValid (run (c, {}) ops).1.outs (utxoIds (run (c, {}) ops).1) txs := by
+  obtain ⟨txs, h1, h2, h3⟩ := mineable_set_total (run (c, {}) ops).1 (run (c, {}) ops).2
+  exact ⟨txs, h1, h2, h3 (entries_always_valid c ops)⟩
+
+/-- witness (the history that made the unrepaired code fail): output 7 is unspent on the chain.
+B spends it (rate 10); A re-creates the same commitment (rate 20); C spends it again (rate 2,
+lowers A's bucket: own bucket).  All three are admitted, the txpool is jointly valid.  The walk
+takes A first - alone it duplicates the unspent commitment: skipped -, then B, then C, which does
+not aggregate with B (two spends of output 7): skipped.  The mineable set is [B]. -/
+def rcx : Ctx where
+  cfg := { maxPool := 50, feeBase := 2 }
+  outs := [od 5 5000, od 7 1000, od 37 750, od 39 3080, od 40 950]
+  head := { utxo := [(5, 0, false), (7, 0, false)], nrd := [], height := 5 }
+  ver := 3
+def rB : Tx := { ins := [7], outs := [37], kers := [pk 1 250] }
+def rA : Tx := { ins := [5], outs := [7, 39], kers := [pk 2 920] }
+def rC : Tx := { ins := [7], outs := [40], kers := [pk 3 50] }
+def rcOps : List Op := [rB, rA, rC].map fun t => .submit .broadcast t false true
+
+theorem recreated_commitment_mineable_set :
+    (run (rcx, {}) rcOps).2.txpool.txs = [rB, rA, rC] ∧
+    jointlyValidB rcx.outs (utxoIds rcx) (run (rcx, {}) rcOps).2.txpool.txs = true ∧
+    stepKinds rcx (.asLimited 250) {} [rB, rA, rC] = [.fresh, .fresh, .own] ∧
+    (run (rcx, {}) rcOps).2.txpool.bucketTransactions rcx (.asLimited 250) = [rA, rB, rC] ∧
+    (aggregate [rB, rC]).toOption = none ∧
+    ((run (rcx, {}) rcOps).2.prepareMineable rcx).toOption = some [rB] ∧
+    mineVerdict rcx [rB] = true := by
+  decide
 
 /-- **lock heights and coinbase maturity are NOT re-checked by `reconcile`**: after a reorg onto
 a head of lower height a height-locked transaction admitted earlier stays in the pool and is
